@@ -622,15 +622,16 @@ class LineClient:
             a = wchoice(r, acts)
             if a == "open":
                 # the editor opens what is on disk: a fresh file the first time, later what the last save left there
-                # (no other program writes the files: a didOpen whose text differs from the disk is a separate matter,
-                # see the report of finding C02-open-text-not-analysed)
+                # (no other program writes the files; a didOpen whose text differs from the disk is note P below)
                 d = r.choice(closed)
                 # a document that was only ever opened as a buffer (note P) and never saved has no file: it can only
                 # come back as a buffer (a file appearing on disk would be announced by a watched-file event)
                 if r.random() < 0.3 or (d in self.seen and d not in self.disk):
                     self.seen.add(d)
                     # ... or restores an unsaved buffer (hot exit): note P = didOpen whose text is NOT the file's
-                    # (finding C02-open-text-not-analysed); the disk keeps what it had (nothing, if never opened)
+                    # (finding C02-open-text-not-analysed, repaired: the repaired didOpen analyses the carried text; the
+                    # driver's constant didopen_fixed is true, VERIF_C02_DIDOPEN=0 = the model of the code before); the
+                    # disk keeps what it had (nothing, if never opened)
                     t = self.fresh()
                     self.docs[d] = t
                     self.notes.append("P%d:%s" % (d, cps(t)))
